@@ -26,25 +26,42 @@ set_option linter.unusedSimpArgs false
 /-! ## the central refinement -/
 
 /-- **The composed router does exactly what the declarative reading says** — which body answered (or which exception
-leaves the router), which exception the excview tween caught, every request attribute the router sets (matched route,
-match dictionary, request interface, root, context, view name, subpath, traversed) and the order of its events — for every
-application and every request that carries a `PATH_INFO`.
-`_partial`: without `PATH_INFO` (legal under PEP 3333) and with no view found the real router raises `KeyError` instead of
-`HTTPNotFound` (`missing_path_info_yields_keyerror`, finding F-X01b); the reading's clause for a *protected and refused*
-exception view is the as-built one (a new `HTTPForbidden` propagates: `protected_exception_view_refusal_leaks`, F-X01a =
-F-C14a = F-C05a). -/
-theorem handle_eq_spec_partial (app : App) (rq : Req) (hc : Coherent app.regs) (hw : app.world.ok = true)
-    (hp : rq.pathInfo.isSome = true) : handle app rq = specHandle app rq := by
+leaves the router), which exception the excview tween caught, what the exception view saw, every request attribute the
+router sets (matched route, match dictionary, request interface, root, context, view name, subpath, traversed), and the
+order of its events together with the attributes visible at each of them — for every application and every request
+without a virtual-root header.  FULL with respect to the reading; the reading itself carries two as-built clauses, each
+isolated in a `_partial` corollary with a `decide`d witness: a protected and refused exception view
+(`exception_rendered_by_most_specific_view_partial`, F-X01a = F-C14a = F-C05a) and the `HTTPNotFound` message read from
+an absent `PATH_INFO` (`nothing_registered_is_http_notfound_partial`, F-X01b). -/
+theorem handle_eq_spec (app : App) (rq : Req) (hc : Coherent app.regs) (hw : app.world.ok = true)
+    (hv : rq.vroot = none) : handle app rq = specHandle app rq := by
   unfold handle handleRequest specHandle
   rw [routeStage_eq_spec]
   cases specRoute app rq with
   | none => exact tween_early app rq _ _ _ hc hw
   | some hit =>
     cases hit with
-    | none => exact afterRoute_eq_spec app rq _ _ hc hw hp
+    | none => exact afterRoute_eq_spec app rq _ _ hc hw hv
     | some x =>
       obtain ⟨i, d, e⟩ := x
-      exact afterRoute_eq_spec app rq _ _ hc hw hp
+      exact afterRoute_eq_spec app rq _ _ hc hw hv
+
+/-- **… and with a virtual-root header** (C02's `traverseText` with the header): everything above still equals the
+reading, except possibly the `traversed` attribute.  `_partial`: C02's finding F-C02a (`traversed` has `len(vroot)` segments
+too many when the walk stops early) leaks through unchanged — `traversed_under_vroot_leaks`; nothing else in the router
+reads `traversed`, so context, view name, subpath, the view chosen, permissions and exception rendering are the reading's. -/
+theorem handle_eq_spec_vroot_partial (app : App) (rq : Req) (hc : Coherent app.regs) (hw : app.world.ok = true) :
+    (handle app rq).eraseTraversed = (specHandle app rq).eraseTraversed := by
+  unfold handle handleRequest specHandle
+  rw [routeStage_eq_spec]
+  cases specRoute app rq with
+  | none => dsimp only [Option.map_none]; rw [tween_early app rq _ _ _ hc hw]
+  | some hit =>
+    cases hit with
+    | none => exact afterRoute_eq_spec_erased app rq _ _ hc hw
+    | some x =>
+      obtain ⟨i, d, e⟩ := x
+      exact afterRoute_eq_spec_erased app rq _ _ hc hw
 
 /-! ### the two places where the full statement fails on the code as it is -/
 
@@ -61,14 +78,21 @@ private def root0 : RootDecl := ⟨.mk true [("a".toList, .mk true [])], [([], [
 /-- no routes, no views, one root -/
 private def appEmpty : App :=
   { routes := [], roots := [root0], defaultRoot := 0, views := [], world := w0, urlDecode := ⟨54, [54, 0], false, none⟩,
-    keyError := ⟨46, [46, 47, 0], false, none⟩, allowed := [] }
+    unicodeDecode := ⟨50, [50, 0], false, none⟩, keyError := ⟨46, [46, 47, 0], false, none⟩, allowed := [] }
 
 /-- **F-X01b** (replayed on the real router by the harness): `PATH_INFO` absent, nothing registered — the composed model
-(like `router.py:167`, `msg = request.path_info`) lets a `KeyError` leave the router, the reading demands `HTTPNotFound`. -/
+(like `router.py:167`, `msg = request.path_info`) lets a `KeyError` leave the router where `HTTPNotFound` is due; with
+`PATH_INFO = '/'` it is `HTTPNotFound`. -/
 theorem missing_path_info_yields_keyerror :
-    (handle appEmpty ⟨none, [], base0⟩).final = .propagates appEmpty.keyError ∧
-    (specHandle appEmpty ⟨none, [], base0⟩).final = .propagates w0.notFound ∧
-    (handle appEmpty ⟨some [47], [], base0⟩).final = .propagates w0.notFound := by decide
+    (handle appEmpty ⟨none, none, [], base0⟩).final = .propagates appEmpty.keyError ∧
+    (handle appEmpty ⟨some [47], none, [], base0⟩).final = .propagates w0.notFound := by decide
+
+/-- **Nothing registered for (request interface, context, view name) ⇒ `HTTPNotFound`** is what the handler raises.
+`_partial`: needs `PATH_INFO` present (see `missing_path_info_yields_keyerror`). -/
+theorem nothing_registered_is_http_notfound_partial (app : App) (rq : Req) (key : CtxKey) (r : Request)
+    (hp : rq.pathInfo.isSome = true) (hn : specView app clsView key r = .none) :
+    specMain app (specNotFound app rq) key r = .error app.world.notFound := by
+  simp only [specMain, hn, specNotFound, hp, if_true]
 
 /-- a view that raises `ex1`, and a protected exception view for it -/
 private def ex1 : Exc := ⟨100, [100, 40, 0], false, none⟩
@@ -81,20 +105,42 @@ private def appLeak : App :=
 protected and the policy refuses — neither its response nor the original exception leaves the router but a new
 `HTTPForbidden`; when the policy permits, the view answers. -/
 theorem protected_exception_view_refusal_leaks :
-    (handle appLeak ⟨some [47], [], base0⟩).final = .propagates w0.excForbidden ∧
-    (handle appLeak ⟨some [47], [], base0⟩).caught = some ex1 ∧
-    (handle { appLeak with allowed := [(.exc ex1.sro, 1)] } ⟨some [47], [], base0⟩).final = .response (.view 2) := by decide
+    (handle appLeak ⟨some [47], none, [], base0⟩).final = .propagates w0.excForbidden ∧
+    (handle appLeak ⟨some [47], none, [], base0⟩).caught = some ex1 ∧
+    (handle { appLeak with allowed := [(.exc ex1.sro, 1)] } ⟨some [47], none, [], base0⟩).final = .response (.view 2) := by decide
 
 /-- the hypotheses of the refinement hold at both witnesses (non-vacuity), so it is the code path, not an ill-formed
 application, that makes them special -/
 example : Coherent appLeak.regs ∧ appLeak.world.ok = true ∧ appLeak.wf = true ∧
-    Coherent appEmpty.regs ∧ (⟨some [47], [], base0⟩ : Req).pathInfo.isSome = true :=
+    Coherent appEmpty.regs ∧ (⟨some [47], none, [], base0⟩ : Req).pathInfo.isSome = true :=
   ⟨(coherentB_iff _).mp (by decide), by decide, by decide, (coherentB_iff _).mp (by decide), rfl⟩
+
+/-- **An exception is rendered by the most specific exception view** (step 4): when the first qualifying candidate `v` of
+the exception lookup (request-interface order of `request_iface.combined`: route-bound before global; the exception's
+resolution order: nearest class first) has a body that responds, that response leaves the router and the body saw the
+exception.  `_partial`: unless `v` is protected and refused (`protected_exception_view_refusal_leaks`). -/
+theorem exception_rendered_by_most_specific_view_partial (app : App) (r0 : Request) (comb : List Nat) (e : Exc) (v : DView)
+    (hf : (candidates app.regs clsExc (ExcView.excRequest r0 e comb)).find? (·.holds (ExcView.excRequest r0 e comb)) = some v)
+    (hok : v.secured = false ∨ app.permits (.exc e.sro) v.tag = true) (hb : bodyOf app.stmts v.tag = .respond) :
+    specRender app r0 comb e = .response (.view v.tag) ∧
+    specSeen app r0 comb e = some ⟨e.id, some e.id, some e.id, none⟩ := by
+  have hs : (v.secured && !app.permits (.exc e.sro) v.tag) = false := by
+    rcases hok with h | h <;> simp [h]
+  simp only [specRender, specSeen, specView, hf, hs, Bool.false_eq_true, if_false, hb, and_self]
+
+/-- no exception view qualifies ⇒ the very exception the tween caught leaves the router -/
+theorem no_exception_view_propagates_same (app : App) (r0 : Request) (comb : List Nat) (e : Exc)
+    (hf : (candidates app.regs clsExc (ExcView.excRequest r0 e comb)).find? (·.holds (ExcView.excRequest r0 e comb)) = none) :
+    specRender app r0 comb e = .propagates e ∧ specSeen app r0 comb e = none := by
+  simp only [specRender, specSeen, specView, hf]
+  by_cases ha : anyRegistered app.regs clsExc (ExcView.excRequest r0 e comb) = true
+  · simp only [ha, if_true, and_self]
+  · simp only [ha, Bool.false_eq_true, if_false, and_self]
 
 /-! ## what the router sets is what the body sees -/
 
 /-- the excview tween never touches the attributes `handle_request` set -/
-theorem tween_attrs (app : App) (rq : Req) (a : Attrs) (hooks : List Point) (early : Option Exc) :
+theorem tween_attrs (app : App) (rq : Req) (a : Attrs) (hooks : List Hook) (early : Option Exc) :
     (tween app rq a hooks early).attrs = a ∧ (tween app rq a hooks early).hooks = hooks := by
   unfold tween
   simp only []
@@ -106,7 +152,7 @@ called, and context / view name / subpath are C02's reading of `PATH_INFO` on th
 theorem route_miss_falls_through_to_traversal (app : App) (rq : Req) (p : Text) (root : RootDecl)
     (hpath : Route.requestPath rq.pathInfo = some p)
     (hmiss : ∀ r ∈ routeList app rq, ∀ e, Route.matchToks Rx.Ucd.ascii r.toks p = some e → Route.predsHold e r.preds = false)
-    (hroot : app.roots[app.defaultRoot]? = some root) (hnr : root.raises = none) :
+    (hroot : app.roots[app.defaultRoot]? = some root) (hnr : root.raises = none) (hv : rq.vroot = none) :
     (handle app rq).attrs.route = none ∧ (handle app rq).attrs.matchdict = none ∧
     (handle app rq).attrs.reqSro = [iRequest, iInterface] ∧
     ∀ t, Trav.specTraverser root.tree ⟨rq.pathInfo, none, none⟩ = .ok t →
@@ -118,16 +164,20 @@ theorem route_miss_falls_through_to_traversal (app : App) (rq : Req) (p : Text) 
     split
     · rfl
     · rw [hm]
-  have hreq : handleRequest app rq =
+  have hreq : (handleRequest app rq).1 =
       match Trav.specTraverser root.tree ⟨rq.pathInfo, none, none⟩ with
-      | .error _ => ({ Attrs.none with root := some app.defaultRoot },
-          [.newRequest, .beforeTraversal, .rootFactory, .traverser], some app.urlDecode)
-      | .ok t => ({ Attrs.none with root := some app.defaultRoot, trav := some t },
-          [.newRequest, .beforeTraversal, .rootFactory, .traverser, .contextFound], none) := by
+      | .error _ => { Attrs.none with root := some app.defaultRoot }
+      | .ok t => { Attrs.none with root := some app.defaultRoot, trav := some t } := by
     unfold handleRequest
-    simp only [hstage, afterRoute, rootIndex, hroot, hnr]
+    simp only [hstage, afterRoute, rootIndex, hroot, hnr, hv]
     rw [Trav.traverser_no_vroot root.tree _ rfl]
-    rfl
+    cases h : Trav.specTraverser root.tree ⟨rq.pathInfo, none, none⟩ with
+    | error x =>
+      have h' : Trav.specTraverser root.tree ⟨rq.pathInfo, none, Option.map travMatchdict Attrs.none.matchdict⟩ = .error x := h
+      rw [h']
+    | ok t =>
+      have h' : Trav.specTraverser root.tree ⟨rq.pathInfo, none, Option.map travMatchdict Attrs.none.matchdict⟩ = .ok t := h
+      rw [h']
   unfold handle
   simp only [(tween_attrs app rq _ _ _).1, hreq]
   cases Trav.specTraverser root.tree ⟨rq.pathInfo, none, none⟩ with
@@ -139,11 +189,11 @@ one route declared, the excview tween catches `URLDecodeError`, no attribute was
 theorem undecodable_path_refused_first (app : App) (rq : Req) (raw : Trav.Bytes) (hr : app.routes.isEmpty = false)
     (hraw : rq.pathInfo = some raw) (hbad : Trav.utf8Dec raw = none) :
     (handle app rq).caught = some app.urlDecode ∧ (handle app rq).attrs = Attrs.none ∧
-    (handle app rq).hooks = [.newRequest] := by
+    (handle app rq).hooks = [(.newRequest, Attrs.none)] := by
   have hstage : routeStage app rq = none := by
     unfold routeStage
     simp only [hr, Bool.false_eq_true, if_false, hraw, Route.invalid_utf8_refused _ _ raw hbad]
-  have hreq : handleRequest app rq = (Attrs.none, [.newRequest], some app.urlDecode) := by
+  have hreq : handleRequest app rq = (Attrs.none, [(.newRequest, Attrs.none)], some app.urlDecode) := by
     unfold handleRequest; rw [hstage]
   unfold handle
   simp only [hreq, (tween_attrs app rq _ _ _).1, (tween_attrs app rq _ _ _).2, and_true]
@@ -154,7 +204,7 @@ theorem undecodable_path_refused_first (app : App) (rq : Req) (raw : Trav.Bytes)
 a prefix of that sequence, for the route's own factory or the default one. -/
 theorem hooks_in_order (app : App) (rq : Req) :
     ∃ hook, (hook = Point.routeFactory ∨ hook = Point.rootFactory) ∧
-      (handle app rq).hooks <+: [.newRequest, .beforeTraversal, hook, .traverser, .contextFound] := by
+      (handle app rq).hooks.map (·.1) <+: [.newRequest, .beforeTraversal, hook, .traverser, .contextFound] := by
   unfold handle
   simp only [(tween_attrs app rq _ _ _).2]
   unfold handleRequest
@@ -185,9 +235,28 @@ theorem hooks_in_order (app : App) (rq : Req) :
         | some e => simp [List.prefix_iff_eq_take]
         | none =>
           dsimp only
-          cases Trav.traverser root.tree ⟨rq.pathInfo, none, a.matchdict.map travMatchdict⟩ with
+          cases Trav.traverser root.tree ⟨rq.pathInfo, rq.vroot, a.matchdict.map travMatchdict⟩ with
           | error _ => simp [List.prefix_iff_eq_take]
           | ok t => simp
+
+/-- **What a subscriber sees at each event**: `NewRequest` — nothing set yet (plain `IRequest`); `BeforeTraversal` and the
+factory — the route's attributes (`matched_route`, `matchdict`, the route's request interface) but no `root` / `context`;
+the traverser — `root` too; `ContextFound` — everything.  (For a request that reaches the lookup.) -/
+theorem attrs_visible_at_hooks (app : App) (rq : Req) (a : Attrs) (d : Option RouteDecl) (root : RootDecl) (t : Trav.Result)
+    (hroot : app.roots[(rootIndex app d).1]? = some root) (hnr : root.raises = none)
+    (ht : Trav.traverser root.tree ⟨rq.pathInfo, rq.vroot, a.matchdict.map travMatchdict⟩ = .ok t) :
+    (afterRoute app rq a d).2.1 =
+      [(.newRequest, Attrs.none), (.beforeTraversal, a), ((rootIndex app d).2, a),
+       (.traverser, { a with root := some (rootIndex app d).1 }),
+       (.contextFound, { a with root := some (rootIndex app d).1, trav := some t })] := by
+  unfold afterRoute
+  revert hroot ht
+  cases rootIndex app d with
+  | mk ri hook =>
+    dsimp only
+    intro hroot ht
+    simp only [hroot, hnr, ht]
+    rfl
 
 /-- **The view is looked up with what routing and traversal found**: the record C03's lookup sees carries the request
 interface order of the matched route (`[route]` or `[route, IRequest]`, then `Interface`), the match dictionary of that
@@ -200,8 +269,11 @@ theorem view_sees_route_matchdict_and_traversal_result (app : App) (rq : Req) (i
     (record app rq a).ctxSro = app.ctxSro ri t.context ∧
     (record app rq a).viewName = String.ofList t.viewName ∧
     mainKey a = .res ri t.context ∧
-    (record app rq a).method = rq.base.method ∧ (record app rq a).getParams = rq.base.getParams := by
-  exact ⟨rfl, rfl, rfl, rfl, rfl, rfl, rfl⟩
+    (record app rq a).lineage = lineageOf app ri t.context ∧
+    (record app rq a).physPath = some ("" :: t.context.map String.ofList) ∧
+    (record app rq a).method = rq.base.method ∧ (record app rq a).getParams = rq.base.getParams ∧
+    (record app rq a).pathInfo = rq.base.pathInfo := by
+  exact ⟨rfl, rfl, rfl, rfl, rfl, rfl, rfl, rfl, rfl, rfl⟩
 
 /-- the traverser is handed the matched route's `traverse` / `subpath` entries and nothing else of the dictionary -/
 theorem traversal_reads_traverse_and_subpath (e : Route.Env) :
@@ -307,61 +379,98 @@ not permit, the handler raises `HTTPForbidden` (which step 4 renders), never a r
 theorem refused_yields_forbidden (app : App) (key : CtxKey) (r : Request) (v : DView)
     (hf : (candidates app.regs clsView r).find? (·.holds r) = some v) (hs : v.secured = true)
     (hp : app.permits key v.tag = false) :
-    specMain app key r = .error app.world.forbidden := by
+    ∀ nf, specMain app nf key r = .error app.world.forbidden := by
+  intro nf
   simp only [specMain, specView, hf, hs, hp, Bool.not_false, Bool.and_self, if_true]
 
-end Pyr.Router
+/-! ## the order of the steps inside `handle_request` and what is set at each, PROBED on the running router on every run -/
 
-/-! ## the order of the steps inside `handle_request`, regenerated from the source on every run -/
-namespace Pyr.Router
-open Pyr.Pipeline (Point)
+/-- the scratch application of `extract/x01.py` as the composed model takes it: roots `{a}` and `{b}`, a factory that raises
+`ValueError`; routes `/r/{id}` (own factory), `/t/*traverse` (use_global_views), `/x/{id}` (raising factory); view 1 `v` on
+class A, view 2 bound to `rt0`, exception view 3 for `ValueError` bound to `rt2`, notfound view 4, exception view 5 for
+`URLDecodeError` -/
+private def valueError : Exc := ⟨52, [52, 40, 0], false, none⟩
+private def probeApp : App :=
+  { routes := [⟨"rt0".toList, [.lit "/r/".toList, .ph "id".toList Rx.notSlashPlus], none, some 1, 1, 20, false⟩,
+               ⟨"rt1".toList, [.lit "/t/".toList, .rest "traverse".toList], none, none, 2, 21, true⟩,
+               ⟨"rt2".toList, [.lit "/x/".toList, .ph "id".toList Rx.notSlashPlus], none, some 2, 3, 22, false⟩],
+    roots := [⟨.mk true [("a".toList, .mk true [])], [([], [10, 0]), (["a".toList], [11, 0])], none⟩,
+              ⟨.mk true [("b".toList, .mk true [])], [([], [10, 0]), (["b".toList], [11, 0])], none⟩,
+              ⟨.mk true [], [], some valueError⟩],
+    defaultRoot := 0,
+    views := [⟨⟨0, 11, "v", [], none, .unset, false, false, 1, .respond⟩, 9⟩,
+              ⟨⟨1, 0, "", [], none, .unset, false, false, 2, .respond⟩, 9⟩,
+              ⟨⟨3, 52, "", [], none, .noPermissionRequired, true, true, 3, .respond⟩, 9⟩,
+              ⟨⟨0, 45, "", [], none, .noPermissionRequired, true, true, 4, .respond⟩, 9⟩,
+              ⟨⟨0, 49, "", [], none, .noPermissionRequired, true, true, 5, .respond⟩, 9⟩],
+    world := { w0 with sec := ⟨false, false⟩ },
+    urlDecode := ⟨49, [49, 50, 51, 52, 40, 0], false, none⟩, unicodeDecode := ⟨50, [50, 51, 52, 40, 0], false, none⟩,
+    keyError := ⟨46, [46, 47, 40, 0], false, none⟩, allowed := [] }
 
-/-- **`Router.handle_request` has the shape the composed model assumes** (`extract/x01.py` → `Gen/X01.lean`): the default
-interface first, `NewRequest`, the route match with `matchdict` / `matched_route` / the route's request interface / the
-route's factory (falling back to the default one), `BeforeTraversal` BEFORE the root factory is called, `root`, the
-traverser on that root, `attrs.update`, `ContextFound`, `context_iface` of the CONTEXT, `_call_view` with the traversal's
-`view_name`, `HTTPNotFound` on `None`.  A statement the translator does not know shows up as `"unknown: …"` and breaks this. -/
-theorem steps_as_modelled :
-    Pyr.Gen.X01.steps = [
-      "iface=IRequest",
-      "notify NewRequest",
-      "factory=self.root_factory",
-      "if routes_mapper",
-      "info=routes_mapper(request)",
-      "match,route=info['match'],info['route']",
-      "if route",
-      "attrs[matchdict]=match",
-      "attrs[matched_route]=route",
-      "iface=registry.queryUtility(IRouteRequest, name=route.name, default=IRequest)",
-      "factory=route.factory or self.root_factory",
-      "end",
-      "end",
-      "notify BeforeTraversal",
-      "root=root_factory(request)",
-      "attrs[root]=root",
-      "traverser=queryAdapter(root, ITraverser) or ResourceTreeTraverser(root)",
-      "tdict=traverser(request)",
-      "unpack tdict",
-      "attrs.update(tdict)",
-      "notify ContextFound",
-      "context_iface=providedBy(context)",
-      "response=_call_view(registry, request, context, context_iface, view_name)",
-      "if response is None: raise HTTPNotFound",
-      "return response"] := by decide
+example : Route.compileRoute Rx.Ucd.ascii [] "/r/{id}".toList = .ok [.lit "/r/".toList, .ph "id".toList Rx.notSlashPlus] ∧
+    Route.compileRoute Rx.Ucd.ascii [] "/t/*traverse".toList = .ok [.lit "/t/".toList, .rest "traverse".toList] := by decide
 
-/-- the hook a generated step stands for -/
-def hookOfStep (s : String) : Option Point :=
-  if s = "notify NewRequest" then some .newRequest
-  else if s = "notify BeforeTraversal" then some .beforeTraversal
-  else if s = "root=root_factory(request)" then some .rootFactory
-  else if s = "tdict=traverser(request)" then some .traverser
-  else if s = "notify ContextFound" then some .contextFound
-  else none
+private def probeReqs : List (String × Trav.Bytes) :=
+  [("traversal", [47, 97, 47, 118]), ("route-factory", [47, 114, 47, 55]), ("route-traverse", [47, 116, 47, 97, 47, 118]),
+   ("factory-raises", [47, 120, 47, 49]), ("not-found", [47, 122, 122]), ("undecodable", [47, 0xff])]
 
-/-- the hooks of the generated step list, in source order, are the model's hook sequence of a request that reaches the
-view lookup (cf. `hooks_in_order`) -/
-theorem generated_hook_order :
-    Pyr.Gen.X01.steps.filterMap hookOfStep = [.newRequest, .beforeTraversal, .rootFactory, .traverser, .contextFound] := by
-  decide
+def hookName : Point → String
+  | .newRequest => "NewRequest"
+  | .beforeTraversal => "BeforeTraversal"
+  | .routeFactory => "routefactory"
+  | .rootFactory => "rootfactory"
+  | .traverser => "traverser"
+  | .contextFound => "ContextFound"
+  | _ => "?"
+
+def renderVal : Route.Val → String
+  | .str s => String.ofList s
+  | .segs xs => "(" ++ String.intercalate "," (xs.map String.ofList) ++ ")"
+
+/-- a hook of the model as an observed event of the probe -/
+def renderStep (h : Hook) : Pyr.Gen.X01.Step :=
+  ⟨hookName h.1, h.2.route, (h.2.matchdict.getD []).map (fun kv => (String.ofList kv.1, renderVal kv.2)), h.2.reqSro, h.2.root,
+   h.2.trav.map (fun t => t.context.map String.ofList), h.2.trav.map (fun t => String.ofList t.viewName)⟩
+
+def renderOutcome (o : Outcome) : List Pyr.Gen.X01.Step × (String × Nat) × Option Nat :=
+  (o.hooks.map renderStep,
+   (match o.final with
+    | .response (.view t) => ("view", t)
+    | .response (.self _ st) => ("status", st.getD 0)
+    | .propagates e => ("raise", e.id)),
+   o.caught.map (·.id))
+
+/-- **The running router takes the steps the composed model takes, and each step sees what the model says it sees**
+(`extract/x01.py` runs the router of the tree under test on a scratch application and writes what logging subscribers,
+factories and a logging traverser observed into `Gen/X01.lean`): for six request shapes — traversal fall-through, a route with
+its own factory, a `*traverse` route with global views, a raising route factory rendered by a ROUTE-BOUND exception view,
+not found, undecodable path — the order NewRequest → BeforeTraversal → root/route factory → traverser → ContextFound, the
+attributes visible at each (`matched_route`, `matchdict` and the route's `request_iface` from BeforeTraversal on; `root` from
+the traverser on; `context` / `view_name` at ContextFound), the answering view and the caught exception are exactly the
+model's.  Fails closed when the probe could not run on the tree's own `pyramid`. -/
+theorem probed_router_matches_model :
+    Pyr.Gen.X01.ownTree = true ∧
+    Pyr.Gen.X01.probed = probeReqs.map fun nr =>
+      (nr.1, renderOutcome (handle probeApp ⟨some nr.2, none, [], base0⟩)) := by decide
+
+/-- **F-C02a leaks through unchanged** (why `handle_eq_spec_vroot_partial` compares up to `traversed`): virtual root `/a`,
+path `/zz` on the probe application — the walk consumes `a` and stops at `zz`; the composed model (like the real traverser)
+reports `traversed = (a, zz)`, the reading `(a)`; context, view name and the answering view agree. -/
+theorem traversed_under_vroot_leaks :
+    let rq : Req := ⟨some [47, 122, 122], some [47, 97], [], base0⟩
+    (handle probeApp rq).attrs.trav.map (·.traversed) = some ["a".toList, "zz".toList] ∧
+    (specHandle probeApp rq).attrs.trav.map (·.traversed) = some ["a".toList] ∧
+    (handle probeApp rq).final = (specHandle probeApp rq).final ∧
+    (handle probeApp rq).attrs.trav.map (·.context) = some ["a".toList] := by decide
+
+/-- the probe application satisfies the hypotheses of `handle_eq_spec`, so the probed steps are also the reading's -/
+example : Coherent probeApp.regs ∧ probeApp.world.ok = true ∧ probeApp.wf = true :=
+  ⟨(coherentB_iff _).mp (by decide), by decide, by decide⟩
+
+/-- AST cross-check (tolerant: `[]` = the walk did not recognise `handle_request`; a recognised, different order fails) -/
+theorem ast_order_cross_check :
+    Pyr.Gen.X01.astEvents = [] ∨
+    Pyr.Gen.X01.astEvents = ["notify NewRequest", "routes_mapper", "notify BeforeTraversal", "root_factory", "traverser",
+      "notify ContextFound", "_call_view", "raise HTTPNotFound"] := by decide
 
 end Pyr.Router
